@@ -96,7 +96,7 @@ func (d *sImpl) step(t []string) string {
 	if len(t) == 0 {
 		return "bad-op"
 	}
-	arity := map[string]int{"new": 1, "get": 1, "rm": 1, "rmf": 0, "pf": 1, "pb": 1, "ins": 2, "pfn": 1, "pbn": 1, "insn": 2, "swap": 2}
+	arity := map[string]int{"new": 1, "get": 1, "rm": 1, "rmf": 0, "pf": 1, "pb": 1, "ins": 2, "pfn": 1, "pbn": 1, "insn": 2, "swap": 2, "len": 0, "front": 0, "back": 0, "next": 1}
 	n, ok := arity[t[0]]
 	if !ok || len(t) != 1+n {
 		return "bad-op"
@@ -152,6 +152,18 @@ func (d *sImpl) step(t []string) string {
 		d.l.InsertNodeAt(a[0], e)
 	case "swap":
 		d.l.Swap(a[0], a[1])
+	case "len":
+		return strconv.Itoa(d.l.Len())
+	case "front":
+		return d.show(d.l.Front())
+	case "back":
+		return d.show(d.l.Back())
+	case "next":
+		e := node(a[0])
+		if e == nil {
+			return "bad-op"
+		}
+		return d.show(e.Next())
 	}
 	return "ok"
 }
@@ -217,7 +229,7 @@ func checkS(c core.Case, out []string) *core.Failure {
 			}
 			a[k] = x
 		}
-		arity := map[string]int{"new": 1, "get": 1, "rm": 1, "rmf": 0, "pf": 1, "pb": 1, "ins": 2, "pfn": 1, "pbn": 1, "insn": 2, "swap": 2}
+		arity := map[string]int{"new": 1, "get": 1, "rm": 1, "rmf": 0, "pf": 1, "pb": 1, "ins": 2, "pfn": 1, "pbn": 1, "insn": 2, "swap": 2, "len": 0, "front": 0, "back": 0, "next": 1}
 		if n, ok := arity[t[0]]; !ok || n != len(a) {
 			return nil
 		}
@@ -279,6 +291,28 @@ func checkS(c core.Case, out []string) *core.Failure {
 			if in(a[0]) && in(a[1]) && a[0] != a[1] {
 				s[a[0]].v, s[a[1]].v = s[a[1]].v, s[a[0]].v
 			}
+		case "len":
+			res = strconv.Itoa(len(s))
+		case "front":
+			res = "nil"
+			if len(s) > 0 {
+				res = show(s[0].id)
+			}
+		case "back":
+			res = "nil"
+			if len(s) > 0 {
+				res = show(s[len(s)-1].id)
+			}
+		case "next":
+			if a[0] < 0 || a[0] >= next {
+				return nil
+			}
+			res = "nil"
+			for k := range s {
+				if s[k].id == a[0] && k+1 < len(s) {
+					res = show(s[k+1].id)
+				}
+			}
 		}
 		want := res + " | " + dump()
 		if out[i] != want {
@@ -325,7 +359,7 @@ func genS(r *core.Rand, tier string) core.Case {
 	}
 	for len(lines) <= n {
 		v := r.Range(0, 9)
-		switch r.Pick(8, 10, 10, 6, 12, 5, 8, 3, 2, 2, 3) {
+		switch r.Pick(8, 10, 10, 6, 12, 5, 8, 3, 2, 2, 3, 3) {
 		case 0:
 			lines = append(lines, fmt.Sprintf("pf %d", v))
 			ids = insAt(ids, 0, next)
@@ -388,6 +422,32 @@ func genS(r *core.Rand, tier string) core.Case {
 				ids = insAt(ids, clamp(i), e)
 			}
 			length++
+		case 11:
+			switch r.Intn(5) {
+			case 0:
+				lines = append(lines, "len")
+			case 1:
+				lines = append(lines, "front")
+			case 2:
+				lines = append(lines, "back")
+			default:
+				if next == 0 {
+					continue
+				}
+				// a live node (ends favoured) or any allocated one (possibly removed)
+				e := r.Intn(next)
+				if length > 0 && r.Chance(60) {
+					switch r.Intn(3) {
+					case 0:
+						e = ids[0]
+					case 1:
+						e = ids[length-1]
+					default:
+						e = ids[r.Intn(length)]
+					}
+				}
+				lines = append(lines, fmt.Sprintf("next %d", e))
+			}
 		}
 	}
 	return core.Case{Lines: lines, Tag: "slist"}
